@@ -19,6 +19,8 @@ def gaf_line(r, k):
     opt = ([f"tp:A:{r['tp']}"] if r["tp"] else []) + ["NM:i:1"] + ([f"cg:Z:{cg}"] if cg else [])     # the cg tag is optional
     if k % 3 == 2 and cg:      # the order of the optional fields is free: here the CIGAR comes first
         opt = [f"cg:Z:{cg}"] + [t for t in opt if not t.startswith("cg:Z:")]
+    if k % 5 == 3:      # minigraph's difference string in FRONT of the fields the figures are taken from
+        opt = ["ds:Z:*+a3-cc:1"] + opt
     if k % 3 == 1:      # aligner-specific tags that restate (here: contradict) the mandatory columns must not be used for the figures
         opt += ["id:f:0.123", "dv:f:0.9", "AS:i:-7", "ql:i:5"]
     return "\t".join([r["name"], str(r["qlen"]), str(r["qs"]), str(r["qe"]), "+-"[k % 2], ">s1>s2", "1000", "0", str(r["bl"]),
